@@ -1911,6 +1911,11 @@ def gen_conn(rng):
                 pts.append(q)
         if len(pts) < n:
             continue
+        if n >= 2 and rng.random() < 0.08:
+            # two centres on exactly the same point (a dummy / ghost centre placed on an atom): distance 0 is below every positive
+            # cutoff, so the rule lists the pair; rigid motion keeps them coincident (same arithmetic on equal inputs)
+            i_, j_ = rng.sample(range(n), 2)
+            pts[j_] = list(pts[i_])
         radii = [radius_of(s) for s in syms]
         mo = gen_motion(rng)
         P = fpts(pts)
@@ -2248,7 +2253,7 @@ def gen_seq(rng):
             steps.append({"op": "vdw_get", "id": nid(), "atom": seq_spelling(rng, rng.choice(cast)), "kw": kw})
         elif r < 0.38:
             steps.append({"op": "pt", "id": nid(), "fn": rng.choice(["to_E", "to_Z", "to_mass", "to_A", "to_name"]), "atom": seq_spelling(rng, rng.choice(cast))})
-        elif r < 0.68:
+        elif r < 0.64:
             if conn_ids and rng.random() < 0.3:
                 # the same molecule again with other options (fresh objects, or the very objects of the earlier call)
                 k = rng.choice(conn_ids)
@@ -2265,8 +2270,10 @@ def gen_seq(rng):
         elif r < 0.74:
             # the caller edits something the library returned earlier, then asks the same question again
             pool = conn_ids + meas_ids
+            arrs = [k for k in meas_ids if steps[k].get("fn") in ("dm", "distance", "angle", "dihedral") and steps[k].get("reuse") is None and not steps[k].get("dirty")]
             if pool:
-                k = rng.choice(pool)
+                # array-valued answers (distance matrix, row-wise measurements) are edited in place as often as bond lists
+                k = rng.choice(arrs) if arrs and rng.random() < 0.5 else rng.choice(pool)
                 steps.append({"op": "mut_result", "id": nid(), "of": k, "how": rng.choice(["clear", "append", "reverse", "pop", "dup"])})
                 src = steps[k]
                 if src["op"] == "conn":
